@@ -4,3 +4,6 @@ package container
 
 // VerifHook intercepts the typed read methods of *Client at entry (see tools/ovgen hookfn).
 var VerifHook func(c *Client, name string, args []any) ([]any, bool)
+
+// VerifContainerToStackItem exposes the conversion the real client uses for createV2 arguments.
+var VerifContainerToStackItem = containerToStackItem
